@@ -58,6 +58,7 @@ PropC02(e) ==
    /\ e.ev \in {"rt", "enc"} =>
         /\ HasVars(e.msg.item) \/ ValuesOK(e.msg.item)
         /\ e.bytes = ExpectedBytes(e.msg)
+        /\ ("keptsame" \in DOMAIN e) => e.keptsame      \* ... and stay that while other items and messages are encoded
    \* a message that came out of the decoder - whatever spelling its input had - encodes like any other
    /\ (e.ev = "dec" /\ e.ok /\ e.msg2.kind = "data") => (Bytes2(e) = ExpectedBytes(e.msg2) /\ PBytes2(e) = Bytes2(e))
 
